@@ -99,9 +99,12 @@ impl U256Muldiv {
 
 //@ fn math/u256_math.rs checked_shift_word_left in=/^impl U256Muldiv \{/ -> r
     ensures
+        self.view() >= Q3() <==> r is None,
         self.items[3] != 0 ==> r is None,
         self.items[3] == 0 ==> r is Some && r.unwrap().view() == self.view() * Q()
             && r.unwrap().items[0] == 0 && r.unwrap().items[1] == self.items[0] && r.unwrap().items[2] == self.items[1] && r.unwrap().items[3] == self.items[2],
+//@ inject at /^\{/
+    proof { lemma_view_bounds(*self); }
 //@ end
 
 //@ fn math/u256_math.rs shift_word_right in=/^impl U256Muldiv \{/ -> r
